@@ -4,7 +4,7 @@
 from abc import abstractmethod, ABCMeta
 from dataclasses import dataclass, field
 import warnings
-from typing import List, Iterator, Optional, Dict
+from typing import List, Iterator, Optional, Dict, Tuple
 import numpy as np
 from tqdm import tqdm
 from qce_circuit.utilities.custom_exceptions import InterfaceMethodException
@@ -225,23 +225,34 @@ class CircuitCompositeOperation(ICircuitCompositeOperation):
 
     @property
     def duration(self) -> float:
-        """:return: Duration [ns]."""
-        total_duration: float = 0.0
-        # Guard clause, if graph does not contain non-Head nodes, return zero total duration
+        """:return: Duration [ns]. Time between earliest start and latest end of all contained operations."""
+        return self._lead_and_span()[1]
+
+    def _lead_and_span(self) -> Tuple[float, float]:
+        """
+        :return: Tuple of (lead, span).
+        Span is the time between earliest start and latest end of all contained operations.
+        Lead is the time by which the earliest contained operation precedes the first (depth-1) operations.
+        """
+        # Guard clause, if graph does not contain non-Head nodes, return zero lead and span
         if self.empty_composite:
-            return total_duration
-        # Calculate relative start time of internal operations
-        relative_start_time: float = +np.inf
-        for start_node in self._circuit_graph.get_nodes_at(depth=1):
-            start_time: float = start_node.operation.start_time
-            if start_time < relative_start_time:
-                relative_start_time = start_time
-        # Calculate internal duration of operation branch
-        for leaf_node in self._circuit_graph.leaf_nodes:
-            delta_time = leaf_node.operation.end_time - relative_start_time
-            if delta_time > total_duration:
-                total_duration = delta_time
-        return total_duration
+            return 0.0, 0.0
+        head_nodes: List[OperationGraphNode] = self._circuit_graph.get_nodes_at(depth=1)
+        head_start_time: float = +np.inf
+        earliest_start_time: float = +np.inf
+        latest_end_time: float = -np.inf
+        for node in self._circuit_graph.get_node_iterator():
+            operation: ICircuitOperation = node.operation
+            if isinstance(operation, CircuitCompositeOperation):
+                lead, span = operation._lead_and_span()
+            else:
+                lead, span = 0.0, operation.duration
+            start_time: float = operation.relation_link.get_start_time(duration=span)
+            if any(node is head_node for head_node in head_nodes):
+                head_start_time = min(head_start_time, start_time)
+            earliest_start_time = min(earliest_start_time, start_time - lead)
+            latest_end_time = max(latest_end_time, start_time - lead + span)
+        return head_start_time - earliest_start_time, latest_end_time - earliest_start_time
     # endregion
 
     # region Interface Methods
